@@ -247,6 +247,26 @@ def check(ctx):
     ctx.require_instances("R-C19.1", 240)
 
     # ---- R-C19.2 / R-C19.3 -----------------------------------------------------------
+    # object-like macros that some header defines with an EMPTY replacement (include guards mostly): inside an #if expression such a name
+    # expands to nothing - `#if !G` becomes `#if !`, which cpp rejects ("operator '!' has no right operand") as soon as the definition is in force,
+    # i.e. on the second inclusion or after another header that defines it
+    import re as _re
+    empty_macros = {}
+    for rel0, f0 in fs.items():
+        for it0 in f0.items:
+            if it0.kind == "define" and it0.b is None and not (it0.c or "").strip():
+                empty_macros.setdefault(it0.a, []).append((rel0, it0.line))
+    for rel, f in sorted(fs.items()):
+        for ln, d, expr in f.conds:
+            if d not in ("if", "elif"):
+                continue
+            bare = _re.sub(r"defined\s*(\(\s*[A-Za-z_$][A-Za-z0-9_$]*\s*\)|[A-Za-z_$][A-Za-z0-9_$]*)", " 0 ", expr)
+            used = sorted(set(H.IDENT.findall(bare)) & set(empty_macros))
+            ctx.oblige("R-C19.2", f"{rel}:{ln}: #{d} expression stays well-formed under every macro definition of the tree", not used, sample={"rule": "R-C19.2", "file": rel, "conditional": f"#{d} {expr}", "macros with an empty body used as operands": used})
+            for mname in used:
+                where = empty_macros[mname][0]
+                ctx.violation("R-C19.2", f"if-empty-macro:{rel}:{mname}", f"{rel}:{ln}: `#{d} {expr}` uses `{mname}` as an operand, and {where[0]}:{where[1]} defines it with an empty body: once that definition is in force "
+                              f"(second inclusion of the file, or after the other header) the expression is `#{d} {bare.replace(mname, '').strip()}` and cpp stops with an error", file="utils/fake_libc_include/" + rel, line=ln, construct=f"#{d} {expr}")
     for rel, f in sorted(fs.items()):
         has_text = any(it.kind == "text" for it in f.items)
         ok = (not has_text) or f.guard is not None
@@ -327,6 +347,11 @@ def check(ctx):
         reach[rel] = r
         return r
     for rel in sorted(fs):
+        internal = os.path.basename(rel).startswith("_")      # building blocks (_fake_defines.h, X11/_X11_fake_typedefs.h ...): not headers a program includes
+        if not reaches(rel) and not internal:
+            ctx.oblige("R-C19.6", f"{rel} pulls in the central type names", False, nontrivial=True)
+            ctx.violation("R-C19.6", f"no-central-typedefs:{rel}", f"{rel} does not include _fake_typedefs.h (directly or through another header): a file that includes only <{rel}> preprocesses and parses, but none of the "
+                          f"{len(central)} type names the fake headers define (size_t, uint32_t, FILE ...) is usable afterwards", file="utils/fake_libc_include/" + rel)
         if reaches(rel):
             got = set(wk.run(rel).typedefs)
             missing = sorted(central - got)
